@@ -74,6 +74,7 @@ def check(run):
         rng.shuffle(lv)
         lv = lv[:600]
     stim = [oc.hist_to_stimulus(h, i + 1, STORAGES[i % len(STORAGES)], run.seed, table) for i, h in enumerate(lv)]
+    stim = oc.with_same_waker_variants(stim, 50000)
     recs = oc.run_harness(wd, "edge", stim)
     ends = [r for r in recs if r["ev"] == "end"]
     run.cov["scripted_runs"] = len(ends)
